@@ -2,7 +2,9 @@ package harness
 
 import (
 	"bytes"
+	"encoding/binary"
 	"fmt"
+	"io"
 	"os"
 	"path/filepath"
 	"sync"
@@ -10,6 +12,7 @@ import (
 
 	"github.com/kelindar/column"
 	"github.com/kelindar/column/commit"
+	"github.com/klauspost/compress/s2"
 	"pgregory.net/rapid"
 )
 
@@ -216,6 +219,18 @@ func TestC06Parallel(t *testing.T) {
 			}
 			return commit.Open(bytes.NewReader(mem.Bytes()))
 		}
+		// 0. the decompressed stream parses as commits with sane lengths (a bounded parser of the
+		// documented framing: the library's own decoder trusts length fields and can try to
+		// allocate a garbage length)
+		var raw []byte
+		if useFile {
+			raw, _ = os.ReadFile(name)
+		} else {
+			raw = mem.Bytes()
+		}
+		if msg := scanCommitStream(raw, uint32(blocks)); msg != "" {
+			t.Fatalf("C06 violated (parallel writers into a serialized log, %d blocks): the log is damaged: %s", blocks, msg)
+		}
 		got := map[uint32]int{}
 		total := 0
 		src := open()
@@ -276,4 +291,50 @@ func TestC06Parallel(t *testing.T) {
 		}
 		RecordCase("C06", fmt.Sprintf("parallel log: blocks=%d txns=%d file=%v commits=%d", blocks, txns, useFile, counter.n), true, "parallel-writers-serialized-log")
 	})
+}
+
+// scanCommitStream walks the s2-decompressed log with the commit framing of
+// Commit.WriteTo (uvarint block, uvarint id, uvarint #buffers, per buffer: string name,
+// uvarint #sections, 8 bytes per section, uvarint length, bytes) and checks every field
+// against generous bounds, without allocating from untrusted lengths.
+func scanCommitStream(compressed []byte, blocks uint32) string {
+	data, err := io.ReadAll(io.LimitReader(s2.NewReader(bytes.NewReader(compressed)), 1<<28))
+	if err != nil {
+		return "s2 stream: " + err.Error()
+	}
+	pos := 0
+	uv := func() (uint64, bool) {
+		v, n := binary.Uvarint(data[pos:])
+		if n <= 0 {
+			return 0, false
+		}
+		pos += n
+		return v, true
+	}
+	for n := 0; pos < len(data); n++ {
+		chunk, ok1 := uv()
+		id, ok2 := uv()
+		nbuf, ok3 := uv()
+		if !ok1 || !ok2 || !ok3 || chunk >= uint64(blocks) || id == 0 || nbuf > 8 {
+			return fmt.Sprintf("commit #%d at byte %d: block=%d id=%d buffers=%d", n, pos, chunk, id, nbuf)
+		}
+		for b := uint64(0); b < nbuf; b++ {
+			l, ok := uv()
+			if !ok || l > 16 || pos+int(l) > len(data) {
+				return fmt.Sprintf("commit #%d buffer %d: column name length %d", n, b, l)
+			}
+			pos += int(l)
+			sec, ok := uv()
+			if !ok || sec > 64 || pos+int(sec)*8 > len(data) {
+				return fmt.Sprintf("commit #%d buffer %d: %d sections", n, b, sec)
+			}
+			pos += int(sec) * 8
+			blen, ok := uv()
+			if !ok || blen > 1<<20 || pos+int(blen) > len(data) {
+				return fmt.Sprintf("commit #%d buffer %d: payload length %d", n, b, blen)
+			}
+			pos += int(blen)
+		}
+	}
+	return ""
 }
